@@ -5,6 +5,10 @@ from ..core import Report
 from ..proto import enc, enc_pt, dec_pts
 from . import runlevel
 
+# case kinds of corpus/ entries (failing inputs of past regressions) that this module replays on every run
+CORPUS_KINDS = ('pipe_run', 'inverse', 'filter_run')
+
+
 
 def mesh_function_level(ctx, rep):
     """force_to_grid and _update_search_bounds_ logic vs Mesh.* on dyadic inputs incl. infinite bounds (exact)."""
